@@ -231,7 +231,8 @@ def run_tlc(module, cfg, env=None, workers=1, timeout=900, dfs=False, simulate=N
         # rc 0 = ok, 12 = safety violation (reported through res.violated); everything else is
         # a failure of the machinery (parse error, evaluation error, crash, timeout)
         if rc not in (0, 12) or (rc == 0 and res.errors):
-            raise TlcError("TLC failed on %s (rc=%s):\n%s" % (module, rc, out[-6000:]))
+            first = out.find("Error:")
+            raise TlcError("TLC failed on %s (rc=%s):\n%s\n...\n%s" % (module, rc, out[max(0, first - 200):first + 1500] if first >= 0 else "", out[-2500:]))
     return res
 
 
